@@ -302,6 +302,30 @@ func CheckUserInput(conf Root) error {
 			}
 		}
 	)
+	// index entries are a column name optionally followed by a direction
+	checkIndexCol := func(val string) {
+		name, dir, _ := strings.Cut(val, " ")
+		check("index column name", name)
+		switch strings.ToLower(dir) {
+		case "", "asc", "desc":
+		default:
+			if err == nil {
+				err = fmt.Errorf("%q index direction must be asc or desc", val)
+			}
+		}
+	}
+	checkRef := func(ref dig.Ref) {
+		check("referenced integration name", ref.Integration)
+		check("referenced table name", ref.Table)
+		check("referenced column name", ref.Column)
+	}
+	var checkInputs func([]dig.Input)
+	checkInputs = func(inputs []dig.Input) {
+		for _, inp := range inputs {
+			checkRef(inp.Filter.Ref)
+			checkInputs(inp.Components)
+		}
+	}
 	for _, ig := range conf.Integrations {
 		check("integration name", ig.Name)
 		check("table name", ig.Table.Name)
@@ -309,14 +333,22 @@ func CheckUserInput(conf Root) error {
 			check("column name", c.Name)
 			check("column type", c.Type)
 		}
+		for _, cols := range ig.Table.Unique {
+			for _, name := range cols {
+				check("unique column name", name)
+			}
+		}
+		for _, cols := range ig.Table.Index {
+			for _, val := range cols {
+				checkIndexCol(val)
+			}
+		}
 		for _, name := range ig.Notification.Columns {
 			check("notification column name", name)
 		}
-		for _, inp := range ig.Event.Inputs {
-			check("referenced column name", inp.Filter.Ref.Column)
-		}
+		checkInputs(ig.Event.Inputs)
 		for _, bd := range ig.Block {
-			check("referenced column name", bd.Filter.Ref.Column)
+			checkRef(bd.Filter.Ref)
 		}
 	}
 	for _, sc := range conf.Sources {
